@@ -3,6 +3,7 @@ use crate::conv::Sett;
 use crate::enumr;
 use crate::refmodel;
 use crate::runner::{Case, Cx, Prop, Scope, Tier};
+use crate::shapes;
 use crate::svg::{Doc, Kind};
 use std::collections::BTreeMap;
 
@@ -15,7 +16,7 @@ fn is_label(c: char) -> bool {
 }
 
 /// compare the text elements of `d` with the label characters of `input`
-pub fn check_texts(cx: &mut Cx, input: &str, d: &Doc) {
+pub fn check_texts(cx: &mut Cx, input: &str, d: &Doc, drawing_chars_never_text: bool) {
     let rows: Vec<Vec<char>> = refmodel::rows(input).iter().map(|r| refmodel::expand(r)).collect();
     let mut want: BTreeMap<(usize, usize), char> = BTreeMap::new();
     for (r, row) in rows.iter().enumerate() {
@@ -64,7 +65,7 @@ pub fn check_texts(cx: &mut Cx, input: &str, d: &Doc) {
         }
     }
     for ((r, c), (ch, _)) in &got {
-        if !want.contains_key(&(*r, *c)) {
+        if drawing_chars_never_text && !want.contains_key(&(*r, *c)) {
             cx.fail("drawing-char-as-text", format!("character {:?} at row {} column {} is a drawing character here but is shown as text", ch, r, c));
             return;
         }
@@ -77,7 +78,7 @@ impl Prop for C04 {
     }
     fn rule(&self) -> &'static str {
         "all rows over {space,a,é,я,一,° (East-Asian-ambiguous width),-,|} up to length 5 (thorough 7), each alone and stacked on a row of dashes (one span); thorough: three-row documents text/dashes/text with rows up to length 4 \
-         and rows inside a box; every text element must be anchored at point Q of a cell and spell the input characters found at consecutive display columns; every label character is shown exactly once. \
+         rows inside a box, and labels on every blank cell around and inside shape families (incl. arcs and overlapping diagonals, at the origin and shifted); every text element must be anchored at point Q of a cell and spell the input characters found at consecutive display columns; every label character is shown exactly once. \
          distinct_nontrivial = distinct (text count, text lengths) outcomes with at least one text"
     }
     fn assumptions(&self) -> Vec<String> {
@@ -111,6 +112,48 @@ impl Prop for C04 {
                 }
             }
         }));
+        let step = if tier == Tier::Quick { 4 } else { 1 };
+        v.push(Scope::new("labels-near-shapes", "shape families (boxes, circles, arcs from corrupted circles, runs, arrows, overlapping diagonals): a one- or two-character label put on every blank cell of the drawing's bounding box and its one-cell surround, at the origin and shifted", move |f| {
+            let mut ds: Vec<String> = shapes::family_samples(8).into_iter().enumerate().filter(|(i, _)| i % step == 0).map(|(_, x)| x.1).collect();
+            ds.extend(shapes::circle_defect_family(9).into_iter().step_by(step * 3));
+            ds.extend(shapes::overlapping_bbox_family().into_iter().step_by(step * 2));
+            for d in ds {
+                if d.contains('"') || d.contains('{') || d.chars().any(is_label) {
+                    continue;
+                }
+                let (w, h) = enumr::extent(&d);
+                if w > 16 || h > 12 {
+                    continue;
+                }
+                let g: Vec<Vec<char>> = d.split('\n').map(|l| l.chars().collect()).collect();
+                for r in 0..h + 2 {
+                    for c in 0..w + 2 {
+                        // canvas coordinates with a one-cell surround
+                        let (gr, gc) = (r as i32 - 1, c as i32 - 1);
+                        let at = |rr: i32, cc: i32| -> char {
+                            if rr < 0 || cc < 0 {
+                                return ' ';
+                            }
+                            g.get(rr as usize).and_then(|row| row.get(cc as usize)).copied().unwrap_or(' ')
+                        };
+                        if at(gr, gc) != ' ' {
+                            continue;
+                        }
+                        for label in ["a", "ab"] {
+                            if label.len() == 2 && at(gr, gc + 1) != ' ' {
+                                continue;
+                            }
+                            let mut cv = shapes::Canvas::new();
+                            cv.paste(1, 1, &d);
+                            cv.text(c as i32, r as i32, label);
+                            let body = cv.render();
+                            f(Case::s(body.clone()));
+                            f(Case::s(enumr::shift(&body, 3, 2)));
+                        }
+                    }
+                }
+            }
+        }));
         let bl = if tier == Tier::Quick { 3 } else { 5 };
         v.push(Scope::new("in-box", "rows over {space,a,é,一} inside a box of 6 columns (text next to '|')", move |f| {
             enumr::strings_upto(&['a', 'é', '一', ' '], bl, &mut |s| {
@@ -121,7 +164,7 @@ impl Prop for C04 {
         }));
         v
     }
-    fn check(&self, _scope: &str, case: &Case, cx: &mut Cx) {
+    fn check(&self, scope: &str, case: &Case, cx: &mut Cx) {
         let d = match cx.conv_doc(&case.s, &Sett::bare()) {
             Some(d) => d,
             None => return,
@@ -131,6 +174,7 @@ impl Prop for C04 {
             let lens: Vec<usize> = d.of(Kind::Text).map(|t| t.text.chars().count()).collect();
             cx.outcome(&lens);
         }
-        check_texts(cx, &case.s, &d);
+        // in the shape scopes other drawing characters may legitimately be shown as text (an isolated '.')
+        check_texts(cx, &case.s, &d, scope != "labels-near-shapes");
     }
 }
